@@ -38,9 +38,12 @@ MInit ==
 
 MJudge ==
   /\ ~done /\ done' = TRUE
-  /\ verdict' = Failures(call, req)
-  /\ LET m == Run(call) IN
-       PrintT("VERDICT " \o ToJson([id |-> Traces[tid].id, cid |-> Traces[tid].calls[cid].cid,
+  /\ LET m == Run(call)
+         \* attribution aid: when the as-is model predicted the very exception that was observed, its culprits name the locus
+         r == IF req.n = 0 /\ req.exc # "" /\ m.pc # "dead" /\ m.req.exc = req.exc /\ m.req.msgclass = req.msgclass
+                THEN [req EXCEPT !.blame = m.req.blame] ELSE req IN
+       /\ verdict' = Failures(call, r)
+       /\ PrintT("VERDICT " \o ToJson([id |-> Traces[tid].id, cid |-> Traces[tid].calls[cid].cid,
                                     fails |-> SetToSeq(verdict'),
                                     model_dead |-> m.pc = "dead",
                                     model |-> SetToSeq(IF m.pc = "dead" THEN {} ELSE Failures(call, m.req)),
